@@ -182,11 +182,22 @@ def oracle(np, bank, fi, W, eps, order=0):
         elif q == "impulse":
             r = bank.get_impulse_response(fi, W)
         elif q == "half":
-            bank.get_frequency_response(fi, W, half=True)
+            try:
+                bank.get_frequency_response(fi, W, half=True)[...] = 7.25
+            except (ValueError, TypeError):
+                pass
             continue
         else:
-            bank.get_truncated_response(fi, W)
+            try:
+                bank.get_truncated_response(fi, W)[1][...] = 7.25
+            except (ValueError, TypeError):
+                pass
             continue
+        raw, r = r, r.copy()
+        try:
+            raw[...] = 7.25  # the returned array belongs to the caller: scribbling on it must not change later answers
+        except (ValueError, TypeError):
+            pass
         if q in got and not (got[q].shape == r.shape and np.array_equal(got[q], r)):
             bad.append(("repeated_query_differs", dict(query=q, shapes=[list(got[q].shape), list(r.shape)]), None))
         got[q] = r
